@@ -229,6 +229,13 @@ impl<'a> SolOut for Rec<'a> {
                     judged();
                 }
             }
+            F_GUARD => {
+                // judged here as well as at return: paths cut by the call budget never return
+                if k > 0 {
+                    assert!((*x).to_bits() != xold.to_bits(), "no step is accepted below the resolution of x (x did not move)");
+                    judged();
+                }
+            }
             F_FINITE => {
                 // judged at return (needs the status); remember what was handed out
                 if !y[0].is_finite() {
